@@ -37,6 +37,17 @@ def install_entropy(seed):
 
     time.time = fake_time
     time.time_ns = lambda: int(fake_time() * 1e9)
+    mono = {"t": 1000.0 + (seed % 1000)}
+
+    def fake_mono():
+        mono["t"] += 0.0001
+        return mono["t"]
+
+    time.monotonic = fake_mono
+    time.perf_counter = fake_mono
+    time.process_time = fake_mono
+    time.monotonic_ns = lambda: int(fake_mono() * 1e9)
+    time.perf_counter_ns = lambda: int(fake_mono() * 1e9)
     fake_pid = 1000 + seed % 60000
     os.getpid = lambda: fake_pid
     os.getppid = lambda: 1
